@@ -36,7 +36,9 @@ class C08(Prop):
         "and one pair on each side."
         "Later additions: narrow / unsigned / boolean / single-precision / byte-swapped dtypes for observations and predictions, predictions one ulp beside "
         "an observation, extreme levels (2^-45, 1e-12, 1 - 1e-9; purely relative tolerance, the model gets the exact binary level), 'reuse' = a container "
-        "evaluated, refilled in place and evaluated again, 'inf' = infinite observations / predictions for quantile and median. "
+        "evaluated, refilled in place and evaluated again, 'inf' = infinite observations / predictions for quantile and median; in the 'sample' stream "
+        "the library's own weighted average of V (compute_bias without a feature, up to three constant forecast columns) must equal the weighted average of "
+        "identification_function's values. "
     )
     assumptions = ["np.greater_equal on floats = exact >= on the same rationals"]
 
@@ -152,6 +154,17 @@ class C08(Prop):
             if "err" in r:
                 return r
             out["vals"].append(r["v"])
+        # the library's own (weighted) sample average of V: compute_bias without a feature, several constant forecast columns
+        try:
+            from model_diagnostics.calibration import compute_bias
+
+            idx = sorted(set([0, len(grid) // 2, len(grid) - 1]))
+            P = np.array([[float(grid[i])] * len(ys) for i in idx]).T
+            wv = None if case.get("w") is None else np.array([float(Fraction(v)) for v in case["w"]])
+            df = compute_bias(np.array(ys), P if len(idx) > 1 else P[:, 0], weights=wv, functional=case["f"], level=lv, feature=None)
+            out["bias_avg"] = {"idx": idx, "means": [float(v) for v in df["bias_mean"]]}
+        except Exception as e:
+            out["bias_avg"] = {"err": exc_class(e) + ": " + str(e)[:120]}
         if case["f"] == "median":
             out["alias"] = [call_ident(ys, [float(g)] * len(ys), "quantile", 0.5)["v"] for g in grid]
         if case["f"] == "expectile":
@@ -228,6 +241,17 @@ class C08(Prop):
         grid = [Fraction(g) for g in io["grid"]]
         W = sum(ws)
         prev = None
+        ba = io.get("bias_avg")
+        if ba is not None:
+            if "err" in ba:
+                return f"compute_bias without a feature rejected a valid sample: {ba['err']}"
+            if len(ba["means"]) != len(ba["idx"]):
+                return f"compute_bias without a feature returned {len(ba['means'])} rows for {len(ba['idx'])} forecast columns"
+            for i, m in zip(ba["idx"], ba["means"]):
+                avg = float(sum(w * Fraction(v) for w, v in zip(ws, io["vals"][i])) / W)
+                if not abs(m - avg) <= 1e-11 * (1 + abs(avg)):
+                    return (f"the weighted sample average of V reported by compute_bias for the constant forecast {float(grid[i])} is {m!r}, "
+                            f"the weighted average of identification_function's values is {avg!r}")
         for g, vals in zip(grid, io["vals"]):
             # per-observation monotonicity in the prediction
             if prev is not None:
